@@ -564,7 +564,10 @@ def _mixin_mro(ctx, model):
     # the evaluator's uncached handler evaluates the child
     ev = model.cls("pymbolic.mapper.evaluator:EvaluationMapper")
     un = ev.members.get("map_common_subexpression_uncached")
-    ok = un is not None and ast.unparse(un.node.body[-1]).replace(" ", "") == \
-        "returnself.rec(expr.child)"
+    ok = False
+    if un is not None:
+        from ..rules import sole_result
+        ok = sole_result(un.node) in (("rec", ("attr", NODE, "child"), True, ()),
+                                     ("rec", ("field", "child"), True, ()))
     ctx.ob("E/EvaluationMapper/cse-means-child", ok, ev.loc(),
            "a wrapper evaluates to its child")
